@@ -31,6 +31,8 @@ class Cls:
         self.by_alias_own = by_alias_own  # None/True/False inside own Config
         self.extra = dict(extra or {})    # further Config attributes of the own Config: name -> python source
         self.defaults = dict(defaults or {})  # own field name -> default value AST (wide scenarios)
+        self.home = None                # None: the main module; "A"/"B": a library module of its own
+        self.pyname = name              # python __name__ (library classes may share it across modules)
 
     @property
     def mixin(self):
@@ -75,6 +77,8 @@ class Scenario:
         self.extra_src = ""
         self.flags = []                 # code_generation_options shared by every class (wide scenarios)
         self.twins = []                 # (class, look-alike class) pairs
+        self.multi = False              # classes spread over several modules, equal __qualname__ in different modules
+        self.pep563 = False             # modules start with `from __future__ import annotations` (string annotations)
 
     def cls(self, name) -> Cls:
         for c in self.classes:
@@ -187,16 +191,16 @@ def gen_scenario(rng, sid, dialect_p=0.3, wide=False) -> Scenario:
     if rng.random() < dialect_p:
         sc.dialect = rng.choice([True, False, "unset"]) if not wide else rng.choice(["unset", "strategy"])
     sc.lazy = rng.random() < (0.5 if wide else 0.3)
-    if not wide and sc.dialect is not None:
-        # lazy_compilation + call dialect: the first call with `dialect=` compiles nested plain classes only into their
-        # dialect cache (known finding C15/lazy-dialect-first-call; compile ORDER is not in the Coq model): the
-        # combination is generated in the wide (oracle-only) scenarios
-        sc.lazy = False
     sc.flags = [f for f in WIDE_FLAGS if rng.random() < 0.3] if wide else []
+    sc.multi = rng.random() < 0.4
+    sc.pep563 = rng.random() < 0.3
     n = rng.randint(2, 6)
     for i in range(n):
         name = f"K{i}"
-        parent = rng.choice(sc.classes) if sc.classes and rng.random() < 0.4 else None
+        # class identity vs class name: library modules A and B may both define a class of the same __qualname__
+        home = rng.choice([None, None, "A", "B", "B"]) if sc.multi else None
+        visible = [c for c in sc.classes if home is None or c.home == home]   # a library only sees itself
+        parent = rng.choice(visible) if visible and rng.random() < 0.4 else None
         inherited = {f[0] for f in parent.fields} if parent else set()
         pool = [f for f in FIELD_POOL if f not in inherited]
         k = rng.randint(0 if parent else 1, 3)
@@ -204,8 +208,8 @@ def gen_scenario(rng, sid, dialect_p=0.3, wide=False) -> Scenario:
         # a small pool makes look-alike classes (same field names) frequent
         fnames = rng.sample(pool[:4], min(k, 4)) if rng.random() < 0.6 else rng.sample(pool, k)
         own = []
-        earlier = [c.name for c in sc.classes]
-        twin = rng.choice(sc.classes) if sc.classes and rng.random() < 0.3 else None
+        earlier = [c.name for c in visible]
+        twin = rng.choice(visible) if visible and rng.random() < 0.3 else None
         if twin is not None and twin.fields:
             # a look-alike of an earlier class: same field names (and aliases), leaf types re-drawn, so that
             # both classes accept each other's wire form and the ORDER of union members decides
@@ -241,7 +245,24 @@ def gen_scenario(rng, sid, dialect_p=0.3, wide=False) -> Scenario:
         else:
             own_config = rng.random() < 0.5
         by_alias_own = rng.choice([None, None, True, True, False]) if own_config else None
-        sc.classes.append(Cls(name, parent, mixin_here, own, own_config, by_alias_own, extra, defaults))
+        cobj = Cls(name, parent, mixin_here, own, own_config, by_alias_own, extra, defaults)
+        cobj.home = home
+        if home == "B":
+            free = [c.pyname for c in sc.classes if c.home == "A"
+                    and c.pyname not in [d.pyname for d in sc.classes if d.home == "B"]]
+            if free and rng.random() < 0.8:
+                cobj.pyname = rng.choice(free)
+        sc.classes.append(cobj)
+    # classes of equal __qualname__ from different modules meet in one owner: a holder dataclass and composite shapes
+    pairs = [(a.name, b.name) for a in sc.classes for b in sc.classes
+             if a.home == "A" and b.home == "B" and a.pyname == b.pyname]
+    for (a, b) in pairs[:2]:
+        fl = [("p", None, ("data", a)), ("q", "a_q" if rng.random() < 0.3 else None, ("data", b)),
+              ("w", None, rng.choice([("list", ("data", b)), ("opt", ("data", a)), ("dict", ("data", b)),
+                                      ("tuple", [("data", b), ("data", a)])]))]
+        rng.shuffle(fl)
+        h = Cls(f"K{len(sc.classes)}", None, rng.random() < 0.5, fl, sc.dialect is not None, None)
+        sc.classes.append(h)
     names = [c.name for c in sc.classes]
     # roots: every class that is "used" + composite shapes; some classes stay un-annotated
     ann = [nm for nm in names if rng.random() < 0.8] or names[:1]
@@ -249,6 +270,9 @@ def gen_scenario(rng, sid, dialect_p=0.3, wide=False) -> Scenario:
         sc.roots.append(("data", nm))
     for _ in range(rng.randint(2, 4)):
         sc.roots.append(gen_ty(rng, ann, 3))
+    for (a, b) in pairs[:2]:
+        sc.roots.append(rng.choice([("tuple", [("data", a), ("data", b)]), ("tuple", [("data", b), ("int",), ("data", a)]),
+                                    ("dict", ("tuple", [("data", b), ("data", a)]))]))
     for (a, b) in sc.twins[:2]:
         ms = [("data", a), ("data", b)] + ([rng.choice([("int",), ("date",), ("str",)])] if rng.random() < 0.4 else [])
         rng.shuffle(ms)
@@ -350,7 +374,8 @@ def mutate_wire(rng, v, depth=0):
 # Python materialisation
 # ---------------------------------------------------------------------------
 
-def py_ty(t) -> str:
+def py_ty(t, nm=None) -> str:
+    """python source of a type; nm maps model class names to the names visible where the text is placed"""
     k = t[0]
     if k == "int":
         return "int"
@@ -359,17 +384,17 @@ def py_ty(t) -> str:
     if k == "date":
         return "date"
     if k == "list":
-        return f"List[{py_ty(t[1])}]"
+        return f"List[{py_ty(t[1], nm)}]"
     if k == "dict":
-        return f"Dict[str, {py_ty(t[1])}]"
+        return f"Dict[str, {py_ty(t[1], nm)}]"
     if k == "tuple":
-        return "Tuple[" + ", ".join(py_ty(x) for x in t[1]) + "]"
+        return "Tuple[" + ", ".join(py_ty(x, nm) for x in t[1]) + "]"
     if k == "opt":
-        return f"Optional[{py_ty(t[1])}]"
+        return f"Optional[{py_ty(t[1], nm)}]"
     if k == "union":
-        return "Union[" + ", ".join(py_ty(x) for x in t[1]) + "]"
+        return "Union[" + ", ".join(py_ty(x, nm) for x in t[1]) + "]"
     if k == "data":
-        return t[1]
+        return nm[t[1]] if nm else t[1]
     raise ValueError(t)
 
 
@@ -380,27 +405,31 @@ from mashumaro import DataClassDictMixin
 from mashumaro.config import BaseConfig, ADD_DIALECT_SUPPORT
 from mashumaro.config import TO_DICT_ADD_OMIT_NONE_FLAG, TO_DICT_ADD_BY_ALIAS_FLAG, ADD_SERIALIZATION_CONTEXT
 from mashumaro.dialect import Dialect
+import sys as _sys, types as _types
 """
 
 
-def cls_src(sc: Scenario, c: Cls) -> str:
+FUTURE = "from __future__ import annotations\n"
+
+
+def cls_src(sc: Scenario, c: Cls, nm=None) -> str:
     bases = []
     if c.parent:
-        bases.append(c.parent.name)
+        bases.append(nm[c.parent.name] if nm else c.parent.name)
     if c.mixin_here:
         bases.append("DataClassDictMixin")
     deco = "@dataclass(kw_only=True)" if sc.wide else "@dataclass"
-    head = f"{deco}\nclass {c.name}" + (f"({', '.join(bases)})" if bases else "") + ":\n"
+    head = f"{deco}\nclass {nm[c.name] if nm else c.name}" + (f"({', '.join(bases)})" if bases else "") + ":\n"
     body = ""
     for (fn, alias, ft) in c.own_fields:
         dflt = c.defaults.get(fn)
         dsrc = None if dflt is None else ("None" if dflt[0] == "none" else repr(dflt[1]))
         if alias:
-            body += f"    {fn}: {py_ty(ft)} = field(metadata={{'alias': {alias!r}}}" + (f", default={dsrc}" if dsrc is not None else "") + ")\n"
+            body += f"    {fn}: {py_ty(ft, nm)} = field(metadata={{'alias': {alias!r}}}" + (f", default={dsrc}" if dsrc is not None else "") + ")\n"
         elif dsrc is not None:
-            body += f"    {fn}: {py_ty(ft)} = {dsrc}\n"
+            body += f"    {fn}: {py_ty(ft, nm)} = {dsrc}\n"
         else:
-            body += f"    {fn}: {py_ty(ft)}\n"
+            body += f"    {fn}: {py_ty(ft, nm)}\n"
     if c.own_config:
         body += "    class Config(BaseConfig):\n"
         lines = 0
@@ -432,7 +461,7 @@ def wrapper_src(sc: Scenario, i: int, t) -> str:
 def scenario_src(sc: Scenario) -> str:
     # dataclass fields without default may not follow fields with default: aliases use field(metadata=..)
     # which has no default, so any order is fine.
-    s = HEADER
+    s = (FUTURE if sc.pep563 else "") + HEADER
     if sc.dialect is not None:
         if sc.dialect == "unset":
             s += "class Dl(Dialect):\n    no_copy_collections = (list,)\n\n" if sc.wide else "class Dl(Dialect):\n    omit_none = False\n\n"
@@ -441,8 +470,21 @@ def scenario_src(sc: Scenario) -> str:
                   "'deserialize': date.fromordinal}}\n\n")
         else:
             s += f"class Dl(Dialect):\n    serialize_by_alias = {sc.dialect}\n\n"
+    # library modules: created at exec time under <main module name>_A / _B, so that the source stays self-contained
+    for home in ("A", "B"):
+        members = [c for c in sc.classes if c.home == home]
+        if not members:
+            continue
+        nm = {c.name: c.pyname for c in members}
+        lib = (FUTURE if sc.pep563 else "") + HEADER + "".join(cls_src(sc, c, nm) + "\n" for c in members)
+        s += (f"_lib{home} = _types.ModuleType(__name__ + '_{home}'); _sys.modules[_lib{home}.__name__] = _lib{home}\n"
+              f"exec(compile({lib!r}, _lib{home}.__name__, 'exec', dont_inherit=True), _lib{home}.__dict__)\n")
+        for c in members:
+            s += f"{c.name} = _lib{home}.{c.pyname}; {c.name}.__c15_name__ = {c.name!r}\n"
+        s += "\n"
     for c in sc.classes:
-        s += cls_src(sc, c) + "\n"
+        if c.home is None:
+            s += cls_src(sc, c) + "\n"
     for i, t in enumerate(sc.roots):
         s += wrapper_src(sc, i, t) + "\n"
     s += f"ROOTS = [{', '.join(py_ty(t) for t in sc.roots)}]\n"
@@ -459,12 +501,19 @@ def load_module(src: str, tag: str):
     name = f"c15mod_{tag}_{_mod_counter[0]}"
     mod = _types.ModuleType(name)
     sys.modules[name] = mod
-    exec(compile(src, name, "exec"), mod.__dict__)
+    # dont_inherit: this file's own `from __future__ import annotations` must not leak into the scenario
+    exec(compile(src, name, "exec", dont_inherit=True), mod.__dict__)
     return mod
 
 
 def unload_module(mod):
-    sys.modules.pop(mod.__name__, None)
+    for k in [k for k in sys.modules if k == mod.__name__ or k.startswith(mod.__name__ + "_")]:
+        sys.modules.pop(k, None)
+
+
+def cname(cls) -> str:
+    """model name of a class (library classes carry it in their own __dict__; python names may collide)"""
+    return cls.__dict__.get("__c15_name__", cls.__name__)
 
 
 def build(mod, v):
@@ -505,7 +554,7 @@ def canon(o):
     if isinstance(o, dict):
         return ("dict", [(str(k) if isinstance(k, str) else repr(k), canon(x)) for k, x in o.items()])
     if dataclasses.is_dataclass(o) and not isinstance(o, type):
-        return ("obj", type(o).__name__, [(f.name, canon(getattr(o, f.name))) for f in dataclasses.fields(o)])
+        return ("obj", cname(type(o)), [(f.name, canon(getattr(o, f.name))) for f in dataclasses.fields(o)])
     return ("other", type(o).__name__)
 
 
@@ -526,11 +575,11 @@ def classify_exc(e, wrapper_names=()):
     """exception -> ('err', kind, ...) following the reduction used by the Coq model"""
     from mashumaro.exceptions import ExtraKeysError, InvalidFieldValue, MissingField
     if isinstance(e, ExtraKeysError):
-        return ("err", "extra", ",".join(sorted(map(str, e.extra_keys))), e.target_type.__name__)
+        return ("err", "extra", ",".join(sorted(map(str, e.extra_keys))), cname(e.target_type))
     if isinstance(e, MissingField):
-        return ("err", "missing", e.field_name, e.holder_class.__name__)
+        return ("err", "missing", e.field_name, cname(e.holder_class))
     if isinstance(e, InvalidFieldValue):
-        return ("err", "invalid", e.field_name, e.holder_class.__name__)
+        return ("err", "invalid", e.field_name, cname(e.holder_class))
     if isinstance(e, ValueError):
         a = e.args
         if len(a) == 1 and isinstance(a[0], str) and (" " in a[0]):
